@@ -714,6 +714,9 @@ pub fn after_client_frame(sim: &mut Sim, c: usize) {
                                 }
                             }
                             v.push(("C03", "component_presence", format!("client {c}: entity {se:#x} at update tick {u}: {k:?} present on server={} on client={}", sc.contains_key(&k), comps.contains_key(&k))));
+                            if sess.vis.get(se) == Some(&true) && sc.contains_key(&k) {
+                                v.push(("C08", "visible_entity_incomplete", format!("client {c}: entity {se:#x} was made visible to it but lacks {k:?} at update tick {u}")));
+                            }
                         }
                     }
                 }
